@@ -5,9 +5,13 @@ import math
 import numbers
 from fractions import Fraction
 
-from harness.core import REAL_AXIOMS
+from harness.core import REAL_AXIOMS, translated_specs
 
 PROP = "C15"
+# second tie (notes/TRANSLATOR.md, "Benchmark functions"): `evaluate` and the declared data of `set` of all 23 classes
+# (and atom_nd) are translated from the current source by tools/py2coq_bench.py on every run and proved equal to the
+# models of Model/Bench.v, for every vector length / dimension (GenProofs/BenchEquivA.v, BenchEquivB.v, BenchRobustEquiv.v)
+TRANSLATED = translated_specs("BenchGenA", "BenchGenB", "BenchRobustGen")
 
 THEOREMS = {"Artap.Props.C15": [
     "C15_analytic_benchmarks",        # 12 classes, both clauses, every dimension: hand proofs (Reals axioms only)
